@@ -258,6 +258,7 @@ package parse
 //@ pred isWs(c byte) = c == ' ' || c == '\t' || c == '\r' || c == '\n'
 //@ func rawtext
 //@   props C05 C15
+//@   pure
 //@   ghost src int = 0
 //@   at call store#3 assert[copy-in-order;C15] src == i && i < len(s) && val == s[i]
 //@   at call store#3 set src = i + 1
@@ -270,27 +271,496 @@ package parse
 //@   ensures[only-whitespace-dropped;C15] 0 <= src && src <= len(s) && forall(k, src, len(s), isWs(s[k]))
 //@   loop 0
 //@     invariant 0 <= lex.pos && lex.pos <= len(s) && 0 <= lex.lastpos && lex.lastpos <= lex.pos && substr(lex.str, s, 0) && len(lex.str) == len(s)
-//@     invariant len(result) == len(s) && 0 <= spaces && 0 <= resultLen
+//@     invariant len(result) == len(s) && 0 <= spaces && 0 <= resultLen && fresh(result) && !isnil(result)
 //@     invariant resultLen + spaces <= lex.pos + ite(spaces > 0 && charBeforeTrim == 0 && seenNewline, 1, 0)
 //@     invariant[src;C15] 0 <= src && src <= lex.pos && forall(k, src, lex.pos, isWs(s[k])) && (spaces == 0 ==> src == lex.pos) && (!seenNewline && spaces > 0 ==> src == lex.pos - spaces)
 //@     decreases len(s) - lex.pos
 //@   loop 1
-//@     invariant 0 <= i && resultLen <= i && i <= lex.pos && 0 <= resultLen && lex.pos <= len(s) && len(result) == len(s)
+//@     invariant 0 <= i && resultLen <= i && i <= lex.pos && 0 <= resultLen && lex.pos <= len(s) && len(result) == len(s) && fresh(result) && !isnil(result)
 //@     invariant[src;C15] src == i
 //@     decreases lex.pos - i
 //@   loop 2
-//@     invariant 0 <= i && resultLen <= i && i <= lex.lastpos && 0 <= resultLen && lex.lastpos <= lex.pos && lex.lastpos < lex.pos && lex.pos <= len(s) && len(result) == len(s) && substr(lex.str, s, 0) && len(lex.str) == len(s)
+//@     invariant 0 <= i && resultLen <= i && i <= lex.lastpos && 0 <= resultLen && lex.lastpos <= lex.pos && lex.lastpos < lex.pos && lex.pos <= len(s) && len(result) == len(s) && substr(lex.str, s, 0) && len(lex.str) == len(s) && fresh(result) && !isnil(result)
 //@     invariant[src;C15] src == i
 //@     decreases lex.lastpos - i
 //@   loop 3
-//@     invariant lex.lastpos <= i && resultLen <= i && i <= lex.pos && 0 <= resultLen && 0 <= lex.lastpos && lex.pos <= len(s) && len(result) == len(s) && substr(lex.str, s, 0) && len(lex.str) == len(s)
+//@     invariant lex.lastpos <= i && resultLen <= i && i <= lex.pos && 0 <= resultLen && 0 <= lex.lastpos && lex.pos <= len(s) && len(result) == len(s) && substr(lex.str, s, 0) && len(lex.str) == len(s) && fresh(result) && !isnil(result)
 //@     invariant[src;C15] 0 <= src && (i == lex.lastpos ==> src <= i && forall(k, src, i, isWs(s[k]))) && (i > lex.lastpos ==> src == i)
 //@     decreases lex.pos - i
 
-// Parser entry points as seen by other packages. Their bodies (token-level
-// termination and panic-freedom of parse.go) are not under contract yet, so
-// callers rely on this frame-only contract as an assumption.
-//@ trusted Expr -- parser body not yet under contract; callers assume only "returns a node or an error"
+// ---------------------------------------------------------------------------
+// Parser: token-stream model (C05 termination, C18 typestate, C19 positions).
+//
+// Goroutines and channels are not modelled. The scanner goroutine is verified
+// above as a sequential producer; the parser sees it through the assumed
+// contract of (*lexer).nextItem: the items are a finite sequence of ntoks(l)
+// real tokens (never of type itemInvalid, exactly the last one itemEOF or
+// itemError), after which the closed channel yields zero items forever. recv
+// counts the receives; done records that the terminal item has been received
+// (or the channel drained), i.e. that the scanner goroutine can run to its close.
+//@ ghostfield lexer.recv int
+//@ ghostfield lexer.done bool
+//@ specfn ntoks(l *lexer) int
+
+//@ pred tokShape(it item) = 0 <= it.pos && (it.typ == itemDollarIdent || it.typ == itemDotIdent || it.typ == itemDotIndex ==> len(it.val) >= 1) && (it.typ == itemQuestionDotIdent || it.typ == itemQuestionDotIndex ==> len(it.val) >= 2)
+// tokAt(it, idx, l): it is the idx-th item of l's stream.
+//@ pred tokAt(it item, idx int, l *lexer) = ((it.typ == itemInvalid) == (idx >= ntoks(l))) && ((it.typ == itemEOF || it.typ == itemError) == (idx == ntoks(l) - 1)) && tokShape(it) && it.pos <= len(l.input)
+
+//@ trusted (*lexer).nextItem -- channel receive from the scanner goroutine: items arrive in emission order; the scanner emits only non-zero item types, positions inside the input, and closes the channel after its terminal item (C05 lexer contracts)
+//@   modifies l.recv, l.done
+//@   ensures l.recv == old(l.recv) + 1
+//@   ensures tokAt(result, old(l.recv), l)
+//@   ensures l.done == (old(l.done) || l.recv >= ntoks(l))
+
+//@ trusted (*lexer).drain -- receives until the channel is closed
+//@   modifies l.recv, l.done
+//@   ensures l.done && l.recv >= old(l.recv) && l.recv >= ntoks(l)
+
+//@ trusted lexExpr -- starts the scanner goroutine (not modelled) and returns the fresh scanner
+//@   pure
+//@   ensures result != nil && fresh(result) && result.recv == 0 && !result.done && len(result.input) == len(input) && ntoks(result) >= 1
+//@ trusted lex -- starts the scanner goroutine (not modelled) and returns the fresh scanner
+//@   pure
+//@   ensures result != nil && fresh(result) && result.recv == 0 && !result.done && len(result.input) == len(input) && ntoks(result) >= 1
+
+//@ pred cursor(t *tree) = t.lex.recv - t.peekCount
+//@ pred rem(t *tree) = ite(cursor(t) >= ntoks(t.lex), 0, ntoks(t.lex) - cursor(t))
+//@ pred tok1ok(t *tree) = tokAt(t.token[1], t.lex.recv - 2, t.lex)
+//@ pred afterNext(t *tree) = t.peekCount <= 1 && (t.peekCount == 1 ==> tok1ok(t)) && t.lex.recv >= t.peekCount + 1
+//@ pred treeOK(t *tree) = t.lex != nil && 0 <= t.peekCount && t.peekCount <= 2 && t.peekCount <= t.lex.recv && 0 <= t.lex.recv && (t.lex.recv >= 1 ==> tokAt(t.token[0], t.lex.recv - 1, t.lex)) && (t.peekCount == 2 ==> tok1ok(t)) && (t.lex.recv >= ntoks(t.lex) ==> t.lex.done) && 0 <= t.token[0].pos && t.token[0].pos <= len(t.lex.input) && 0 <= t.token[1].pos && t.token[1].pos <= len(t.lex.input)
+//@ pred stepOK(t *tree) = treeOK(t) && cursor(t) >= old(cursor(t)) && t.lex == old(t.lex) && (old(t.lex.done) ==> t.lex.done) && t.aliases == old(t.aliases)
+
+//@ func (*tree).next
+//@   props C05 C18
+//@   requires treeOK(t)
+//@   modifies t.peekCount, t.token, t.lex.recv, t.lex.done
+//@   ensures treeOK(t) && cursor(t) == old(cursor(t)) + 1 && afterNext(t) && (old(t.lex.done) ==> t.lex.done)
+//@   ensures tokAt(result, old(cursor(t)), t.lex)
+//@   ensures t.peekCount == ite(old(t.peekCount) > 0, old(t.peekCount) - 1, 0) && (old(t.peekCount) > 0 ==> t.lex.recv == old(t.lex.recv))
+
+//@ func (*tree).peek
+//@   props C05 C18
+//@   requires treeOK(t)
+//@   modifies t.peekCount, t.token, t.lex.recv, t.lex.done
+//@   ensures treeOK(t) && cursor(t) == old(cursor(t)) && t.peekCount >= 1 && (old(t.lex.done) ==> t.lex.done)
+//@   ensures tokAt(result, cursor(t), t.lex)
+
+//@ func (*tree).backup
+//@   props C05 C18
+//@   requires treeOK(t) && afterNext(t)
+//@   modifies t.peekCount
+//@   ensures t.peekCount == old(t.peekCount) + 1 && treeOK(t)
+
+//@ func (*tree).backup2
+//@   props C05 C18
+//@   requires treeOK(t) && t.peekCount == 0 && t.lex.recv >= 2 && tokAt(t1, t.lex.recv - 2, t.lex)
+//@   modifies t.peekCount, t.token
+//@   ensures t.peekCount == 2 && treeOK(t)
+
+//@ func (*tree).nextNonComment
+//@   props C05 C18
+//@   requires treeOK(t)
+//@   modifies t.peekCount, t.token, t.lex.recv, t.lex.done
+//@   ensures treeOK(t) && cursor(t) >= old(cursor(t)) + 1 && afterNext(t) && (old(t.lex.done) ==> t.lex.done) && result.typ != itemComment
+//@   ensures tokAt(result, cursor(t) - 1, t.lex)
+//@   loop 0
+//@     invariant treeOK(t) && cursor(t) >= old(cursor(t)) && (old(t.lex.done) ==> t.lex.done)
+//@     decreases ntoks(t.lex) - cursor(t)
+
+// errorf / unexpected / error never return: they raise the parse error.
+//@ func (*tree).errorf
+//@   props C05 C19
+//@   requires treeOK(t)
+//@   noreturn
+//@ func (*tree).unexpected
+//@   props C05 C19
+//@   requires treeOK(t)
+//@   noreturn
+//@ func (*tree).error
+//@   props C05
+//@   requires treeOK(t)
+//@   noreturn
+
+//@ func (*tree).expect
+//@   props C05 C18
+//@   requires treeOK(t)
+//@   modifies t.peekCount, t.token, t.lex.recv, t.lex.done
+//@   ensures treeOK(t) && cursor(t) == old(cursor(t)) + 1 && afterNext(t) && (old(t.lex.done) ==> t.lex.done) && result.typ == expected
+//@   ensures tokAt(result, old(cursor(t)), t.lex)
+
+// ---------------------------------------------------------------------------
+// Parser functions share a contract shape: the token model stays well formed,
+// the cursor never moves backwards, the terminal-item flag is monotone.
+// Termination of the mutual recursion: measure (tokens left, static rank); a
+// call at the caller's entry cursor must go to a strictly smaller rank, any
+// other call happens after a real token was consumed.
+// Expression-level functions touch only the token buffer (plus fresh nodes);
+// command-level functions may also update the tree's namespace / aliases.
+//@ functype exprFn
+//@   params t
+//@   props C05 C18
+//@   requires treeOK(t)
+//@   modifies t.peekCount, t.token, t.lex.recv, t.lex.done
+//@   ensures[step] stepOK(t)
+//@ functype parserFn
+//@   params t
+//@   props C05 C18
+//@   requires treeOK(t) && t.aliases != nil
 //@   modifies *
-//@ trusted SoyFile -- parser body not yet under contract; callers assume only "returns a tree or an error"
+//@   preserves E!Int
+//@   ensures[step] stepOK(t)
+
+//@ func isBinaryOp
+//@   pure
+//@   props C05
+//@   ensures result == (typ == itemMul || typ == itemDiv || typ == itemMod || typ == itemAdd || typ == itemSub || typ == itemEq || typ == itemNotEq || typ == itemGt || typ == itemGte || typ == itemLt || typ == itemLte || typ == itemOr || typ == itemAnd || typ == itemElvis)
+//@ func isUnaryOp
+//@   pure
+//@   props C05
+//@   ensures result == (t.typ == itemNot || t.typ == itemNegate)
+//@ func isValue
+//@   pure
+//@   props C05
+//@   ensures result == (t.typ == itemNull || t.typ == itemBool || t.typ == itemInteger || t.typ == itemFloat || t.typ == itemDollarIdent || t.typ == itemString || t.typ == itemIdent || t.typ == itemLeftBracket)
+
+//@ func newBinaryOpNode
+//@   props C05
+//@   pure
+//@   nopanic
+//@   requires t.typ == itemMul || t.typ == itemDiv || t.typ == itemMod || t.typ == itemAdd || t.typ == itemSub || t.typ == itemEq || t.typ == itemNotEq || t.typ == itemGt || t.typ == itemGte || t.typ == itemLt || t.typ == itemLte || t.typ == itemOr || t.typ == itemAnd || t.typ == itemElvis
+//@   ensures result != nil
+//@ func newUnaryOpNode
+//@   props C05
+//@   pure
+//@   nopanic
+//@   requires t.typ == itemNot || t.typ == itemNegate
+//@   ensures result != nil
+
+//@ func (*tree).parseExpr
+//@   like exprFn
+//@   measure rem(t), 2
+//@   ensures result != nil
+//@   loop 0
+//@     invariant stepOK(t) && n != nil
+//@     decreases ntoks(t.lex) - cursor(t)
+
+//@ func (*tree).parseExprFirstTerm
+//@   like exprFn
+//@   measure rem(t), 1
+//@   ensures result != nil
+
+//@ func (*tree).parseTernary
+//@   like exprFn
+//@   measure rem(t), 3
+//@   requires cond != nil
+//@   ensures result != nil
+
+//@ func (*tree).newValueNode
+//@   like exprFn
+//@   measure rem(t), 4
+//@   nopanic
+//@   requires tokShape(tok) && (tok.typ == itemNull || tok.typ == itemBool || tok.typ == itemInteger || tok.typ == itemFloat || tok.typ == itemDollarIdent || tok.typ == itemString || tok.typ == itemIdent || tok.typ == itemLeftBracket)
+//@   ensures result != nil
+
+//@ func (*tree).parseDataRef
+//@   like exprFn
+//@   measure rem(t), 1
+//@   requires len(tok.val) >= 1
+//@   ensures result != nil
+//@   loop 0
+//@     invariant stepOK(t) && ref != nil && fresh(ref) && fresh(ref.Access)
+//@     decreases ntoks(t.lex) - cursor(t)
+
+//@ func (*tree).parseListOrMap
+//@   like exprFn
+//@   measure rem(t), 3
+//@   ensures result != nil
+
+//@ func (*tree).parseListLiteral
+//@   like exprFn
+//@   measure rem(t), 3
+//@   ensures result != nil
+//@   loop 0
+//@     invariant stepOK(t) && fresh(items)
+//@     decreases ntoks(t.lex) - cursor(t)
+
+//@ func (*tree).parseMapLiteral
+//@   like exprFn
+//@   measure rem(t), 3
+//@   ensures result != nil
+//@   loop 0
+//@     invariant stepOK(t) && fresh(items)
+//@     decreases ntoks(t.lex) - cursor(t)
+
+// newGlobalNode un-reads the token after the global's last segment: the cursor
+// may end one below its entry value (its caller consumed that token).
+//@ func (*tree).newGlobalNode
+//@   props C05 C18
+//@   measure rem(t), 1
+//@   requires treeOK(t) && afterNext(t) && tokAt(next, cursor(t) - 1, t.lex)
+//@   modifies t.peekCount, t.token, t.lex.recv, t.lex.done
+//@   ensures treeOK(t) && cursor(t) >= old(cursor(t)) - 1 && t.lex == old(t.lex) && (old(t.lex.done) ==> t.lex.done) && t.aliases == old(t.aliases)
+//@   ensures result != nil
+//@   loop 0
+//@     invariant stepOK(t) && afterNext(t) && tokAt(next, cursor(t) - 1, t.lex)
+//@     decreases ntoks(t.lex) - cursor(t)
+
+//@ func (*tree).newFunctionNode
+//@   like exprFn
+//@   measure rem(t), 3
+//@   ensures result != nil
+//@   loop 0
+//@     invariant stepOK(t) && node != nil && fresh(node) && fresh(node.Args)
+//@     decreases ntoks(t.lex) - cursor(t)
+
+// String literals (quote.go): unquoting cannot index out of range and terminates.
+//@ func unquoteString
+//@   props C05
+//@   pure
+//@   loop 0
+//@     invariant 0 <= i && i <= len(s) && fresh(result)
+//@     decreases len(s) - i
+//@ func contains
+//@   props C05
+//@   pure
+
+// The nested parser for quoted attribute expressions works on its own fresh
+// tree and scanner, drains that scanner on every exit (C18), and leaves the
+// outer parser's token model untouched.
+//@ func (*tree).parseQuotedExpr
+//@   props C05 C18
+//@   pure
+//@   ghost lx *lexer = nil
+//@   at call parse.lexExpr#0 after set lx = res
+//@   ensures result != nil
+//@   ensures[nested-scanner-drained;C18] lx != nil && lx.done
+
+// ---------------------------------------------------------------------------
+// Command parsers.
+//@ func isOneOf
+//@   props C05
+//@   pure
+//@   ensures len(against) == 1 ==> result == (tocheck == against[0])
+//@   loop 0
+//@     invariant forall(k, 0, rangeindex + 1, against[k] != tocheck)
+//@ func allSpace
+//@   props C05
+//@   pure
+//@ func inStringSlice
+//@   props C05
+//@   pure
+
+//@ func (*tree).itemList
+//@   like parserFn
+//@   measure rem(t), 7
+//@   ensures result != nil && afterNext(t) && cursor(t) >= old(cursor(t)) + 1
+//@   ensures[terminal-seen;C18] old(len(until) == 1 && until[0] == itemEOF) ==> t.lex.done
+//@   loop 0
+//@     invariant stepOK(t) && t.aliases != nil
+//@     decreases ntoks(t.lex) - cursor(t)
+
+//@ func (*tree).textOrTag
+//@   like parserFn
+//@   measure rem(t), 6
+//@   requires afterNext(t) && tokAt(token, cursor(t) - 1, t.lex)
+//@   ensures !halt ==> old(token.typ) != itemInvalid
+//@   ensures halt ==> afterNext(t)
+//@   ensures[terminal-seen;C18] halt && old(len(until) == 1 && until[0] == itemEOF) ==> t.lex.done
+//@   loop 0
+//@     invariant stepOK(t) && afterNext(t) && tokAt(token, cursor(t) - 1, t.lex)
+//@     invariant old(token.typ) != itemComment ==> token.typ == old(token.typ)
+//@     decreases ntoks(t.lex) - cursor(t)
+//@   loop 1
+//@     invariant stepOK(t) && old(token.typ) != itemInvalid
+//@     decreases ntoks(t.lex) - cursor(t)
+
+//@ func (*tree).beginTag
+//@   like parserFn
+//@   measure rem(t), 5
+
+//@ func (*tree).parsePrint
+//@   like parserFn
+//@   measure rem(t), 4
+//@   loop 0
+//@     invariant stepOK(t)
+//@     decreases ntoks(t.lex) - cursor(t)
+//@   loop 1
+//@     invariant stepOK(t) && ntoks(t.lex) - cursor(t) < loopvariant(0)
+//@     decreases ntoks(t.lex) - cursor(t)
+
+//@ func (*tree).parseAlias
+//@   like parserFn
+//@   measure rem(t), 4
+//@   loop 0
+//@     invariant stepOK(t) && t.aliases != nil
+//@     decreases ntoks(t.lex) - cursor(t)
+
+//@ func (*tree).parseLet
+//@   like parserFn
+//@   measure rem(t), 4
+
+//@ func (*tree).parseCss
+//@   like parserFn
+//@   measure rem(t), 4
+
+//@ func (*tree).parseCall
+//@   like parserFn
+//@   measure rem(t), 4
+//@   loop 0
+//@     invariant stepOK(t) && afterNext(t) && t.aliases != nil && tokAt(tokn, cursor(t) - 1, t.lex) && cursor(t) >= old(cursor(t)) + 1
+//@     decreases ntoks(t.lex) - cursor(t)
+
+//@ func (*tree).parseCallParams
+//@   like parserFn
+//@   measure rem(t), 4
+//@   loop 0
+//@     invariant stepOK(t) && t.aliases != nil
+//@     decreases ntoks(t.lex) - cursor(t)
+//@   loop 1
+//@     invariant stepOK(t) && t.aliases != nil && afterNext(t) && tokAt(initial, cursor(t) - 1, t.lex) && ntoks(t.lex) - cursor(t) < loopvariant(0)
+//@     decreases ntoks(t.lex) - cursor(t)
+
+//@ func (*tree).parseSwitch
+//@   like parserFn
+//@   measure rem(t), 5
+//@   ensures typeis(result, *ast.SwitchNode)
+//@   loop 0
+//@     invariant stepOK(t) && t.aliases != nil
+//@     decreases ntoks(t.lex) - cursor(t)
+
+//@ func (*tree).parseCase
+//@   like parserFn
+//@   measure rem(t), 4
+//@   ensures result != nil
+//@   loop 0
+//@     invariant stepOK(t) && t.aliases != nil
+//@     decreases ntoks(t.lex) - cursor(t)
+
+//@ func (*tree).parseFor
+//@   like parserFn
+//@   measure rem(t), 4
+
+//@ func (*tree).parseIf
+//@   like parserFn
+//@   measure rem(t), 4
+//@   loop 0
+//@     invariant stepOK(t) && t.aliases != nil
+//@     decreases ntoks(t.lex) - cursor(t)
+
+//@ func (*tree).parseSoyDoc
+//@   like parserFn
+//@   measure rem(t), 4
+//@   loop 0
+//@     invariant stepOK(t)
+//@     decreases ntoks(t.lex) - cursor(t)
+
+//@ func (*tree).parseAttrs
+//@   like exprFn
+//@   measure rem(t), 1
+//@   ensures result != nil && t.peekCount >= 1
+//@   loop 0
+//@     invariant stepOK(t) && result != nil && fresh(result)
+//@     decreases ntoks(t.lex) - cursor(t)
+
+//@ func (*tree).parseNamespace
+//@   like parserFn
+//@   measure rem(t), 4
+//@   loop 0
+//@     invariant stepOK(t)
+//@     decreases ntoks(t.lex) - cursor(t)
+
+//@ func (*tree).parseAutoescape
+//@   props C05
+//@   requires treeOK(t)
+//@   pure
+//@ func (*tree).boolAttr
+//@   props C05
+//@   requires treeOK(t)
+//@   pure
+//@ func (*tree).notmsg
+//@   props C05
+//@   requires treeOK(t)
+//@   pure
+
+//@ func (*tree).parseTemplate
+//@   like parserFn
+//@   measure rem(t), 4
+
+//@ func (*tree).parseHeaderParam
+//@   like parserFn
+//@   measure rem(t), 4
+
+//@ func (*tree).parseMsg
+//@   like parserFn
+//@   measure rem(t), 4
+//@   loop 0
+//@     noterm
+
+//@ func (*tree).parsePlural
+//@   like parserFn
+//@   measure rem(t), 6
+//@   nosafety
+//@   loop 0
+//@     invariant stepOK(t)
+
+// Message bodies. parseMsgRawText cuts the text at regexp matches (assumed
+// non-empty and inside the text): in bounds, terminating, touches nothing that
+// existed before. placeholderize / parsePlural rebuild message subtrees; their
+// dynamic type assertions (a case body is a *ListNode, a plural case value an
+// *IntNode) rest on the shape of the trees parseCase / itemList build, which is
+// not carried through the modifies-* contracts of the command parsers: those
+// assertions are assumed (nosafety) and listed as such. Their recursion is
+// structural over the finite tree (not measured).
+//@ func (*tree).parseMsgRawText
+//@   props C05
+//@   pure
+//@   requires node != nil
+//@   loop 0
+//@     invariant fresh(r)
+//@     decreases len(txt)
+
+//@ func (*tree).placeholderize
+//@   props C05
+//@   pure
+//@   nosafety
+//@   ensures result != nil
+//@   loop 0
+//@     invariant fresh(r)
+//@     noterm
+//@   loop 1
+//@     invariant fresh(cases) && fresh(r)
+//@     noterm
+
+// ---------------------------------------------------------------------------
+// Entry points and the panic-to-error handler (C05, C18).
+// Typestate for C18: a scanner goroutine can finish once its terminal item has
+// been received or the channel was drained (ghost lexer.done). Every exit of a
+// function that starts a scanner must leave it done: the normal exits are
+// proved here; the panicking exits run (*tree).recover, proved to drain before
+// it returns (it re-panics only runtime errors, which the C05 obligations
+// exclude).
+//@ func (*tree).recover
+//@   props C05 C18
+//@   handler
 //@   modifies *
+//@   requires t.lex != nil
+//@   ghost recd bool = false
+//@   at call recover#0 after set recd = res != nil
+//@   at call recover#0 after assume isnil(res) || typeis(res, string) || implements(res, error)
+//@   ensures[drains-before-returning;C18] recd ==> old(t.lex).done
+
+//@ func SoyFile
+//@   props C05 C18
+//@   recoverby (*tree).recover
+//@   modifies *
+//@   ghost lx *lexer = nil
+//@   at call parse.lex#0 after set lx = res
+//@   ensures[scanner-finished;C18] lx != nil && lx.done
+
+//@ func Expr
+//@   props C05 C18
+//@   recoverby (*tree).recover
+//@   modifies *
+//@   ghost lx *lexer = nil
+//@   at call parse.lexExpr#0 after set lx = res
+//@   ensures[scanner-finished;C18] lx != nil && lx.done
